@@ -378,54 +378,116 @@ struct Driver {
     return Finding::ok();
   }
 
+  // ---- stage 1: the whole list.  One cycle per bar; every cycle checked against its bar; basis statement with these cycles.
   template <class BK>
-  Finding evaluate(int interp, const Observed& ob, const std::vector<oracle::Bar>& bars, const NestStat& ns, const std::string& sig0) {
-    Sem<BK> sem(F.cells, p);
+  struct ListEval {
+    std::vector<std::vector<int>> pos;            // per bar: the list's cycle in positions
+    std::vector<typename BK::Vec> reps;           // per bar: the chain (when determined)
+    std::vector<char> have;
+  };
+  template <class BK>
+  Finding evaluate_list(const Sem<BK>& sem, int interp, const std::vector<std::vector<ID>>& all, const std::vector<oracle::Bar>& bars,
+                        const NestStat& ns, const std::string& sig0, ListEval<BK>& le) {
     std::unordered_map<ID, int> id2pos;
     for (size_t i = 0; i < ids.size(); ++i) id2pos[ids[i]] = (int)i;
     std::map<int, size_t> bar_of_birth;
     for (size_t i = 0; i < bars.size(); ++i) bar_of_birth[bars[i].birth] = i;
-    auto sig_of = [&](const oracle::Bar& b) { return sig0 + (ns.nested_zero[b.birth] ? ",nested_sources" : ",plain_sources") + (b.death < 0 ? ",essential" : ",finite"); };
-
-    // whole list: one cycle per bar
-    std::vector<std::vector<int>> list_pos(bars.size());
+    le.pos.assign(bars.size(), std::vector<int>()); le.reps.assign(bars.size(), sem.bk.zero()); le.have.assign(bars.size(), 0);
     std::vector<char> seen(bars.size(), 0);
     c.count("cmp.cycles.count");
-    if (ob.all.size() != bars.size())
-      return Finding::make("cycles.count", sig0 + (ob.all.size() > bars.size() ? ",more_cycles_than_bars" : ",fewer_cycles_than_bars"),
-                           "get_representative_cycles() has " + vh::str(ob.all.size()) + " cycles, the barcode has " + vh::str(bars.size()) + " bars");
-    for (auto& cyc : ob.all) {
+    if (all.size() != bars.size())
+      return Finding::make("cycles.count", sig0 + (all.size() > bars.size() ? ",more_cycles_than_bars" : ",fewer_cycles_than_bars"),
+                           "get_representative_cycles() has " + vh::str(all.size()) + " cycles, the barcode has " + vh::str(bars.size()) + " bars");
+    for (auto& cyc : all) {
       std::vector<int> pos; std::string why;
       if (!to_positions(cyc, interp, id2pos, pos, why)) return Finding::make("cycle.malformed", sig0 + ",list", why + " in " + vh::vstr(cyc));
       auto it = bar_of_birth.find(pos.back());
       if (it == bar_of_birth.end()) return Finding::make("cycle.youngest_is_birth", sig0 + ",list,no_bar_born_at_youngest_cell", "cycle " + vh::vstr(pos) + ": no bar is born at its youngest cell");
       if (seen[it->second]) return Finding::make("cycles.count", sig0 + ",two_cycles_same_birth", "two cycles of the list have youngest cell " + vh::str(pos.back()));
-      seen[it->second] = 1; list_pos[it->second] = pos;
+      seen[it->second] = 1; le.pos[it->second] = pos;
     }
-    std::vector<typename BK::Vec> reps_list(bars.size(), sem.bk.zero()), reps_bar(bars.size(), sem.bk.zero());
-    std::vector<char> have_list(bars.size(), 0), have_bar(bars.size(), 0);
-    bool any_diff = false;
     for (size_t i = 0; i < bars.size(); ++i) {
       bool hv = false;
-      Finding f = check_one(sem, bars[i], list_pos[i], sig_of(bars[i]) + ",list", reps_list[i], hv);
+      Finding f = check_one(sem, bars[i], le.pos[i], bar_sig(sig0, ns, bars[i]) + ",list", le.reps[i], hv);
       if (f.bad) return f;
-      have_list[i] = hv;
-      std::vector<int> pos; std::string why;
-      if (!to_positions(ob.perbar[i], interp, id2pos, pos, why)) return Finding::make("cycle.malformed", sig_of(bars[i]) + ",per_bar", why + " in " + vh::vstr(ob.perbar[i]));
-      if (pos == list_pos[i]) { reps_bar[i] = reps_list[i]; have_bar[i] = hv; c.count("cmp.per_bar_equals_list"); }
-      else {
-        any_diff = true; c.count("info.per_bar_differs_from_list");
-        f = check_one(sem, bars[i], pos, sig_of(bars[i]) + ",per_bar", reps_bar[i], hv);
-        if (f.bad) return f;
-        have_bar[i] = hv;
-      }
+      le.have[i] = hv;
     }
     std::string detail; uint64_t ck = 0, sk = 0;
-    std::string id = sem.check_basis(bars, reps_bar, have_bar, detail, ck, sk);
-    if (id.empty() && any_diff) id = sem.check_basis(bars, reps_list, have_list, detail, ck, sk);
+    std::string id = sem.check_basis(bars, le.reps, le.have, detail, ck, sk);
     c.count("cmp.basis.index_checked", ck); c.count("skip.basis.index_with_undetermined_zp_chain", sk);
-    if (!id.empty()) return Finding::make(id, sig0, detail);
+    if (!id.empty()) return Finding::make(id, sig0 + ",list", detail);
     return Finding::ok();
+  }
+  static std::string bar_sig(const std::string& sig0, const NestStat& ns, const oracle::Bar& b) {
+    return sig0 + (ns.nested_zero[b.birth] ? ",nested_sources" : ",plain_sources") + (b.death < 0 ? ",essential" : ",finite");
+  }
+
+  // ---- stage 2: get_representative_cycle(bar) for every bar
+  template <class BK>
+  Finding evaluate_per_bar(const Sem<BK>& sem, int interp, const std::vector<std::vector<ID>>& perbar, const std::vector<oracle::Bar>& bars,
+                           const NestStat& ns, const std::string& sig0, const ListEval<BK>& le) {
+    std::unordered_map<ID, int> id2pos;
+    for (size_t i = 0; i < ids.size(); ++i) id2pos[ids[i]] = (int)i;
+    std::vector<typename BK::Vec> reps(le.reps); std::vector<char> have(le.have);
+    bool any_diff = false;
+    for (size_t i = 0; i < bars.size(); ++i) {
+      std::vector<int> pos; std::string why;
+      if (!to_positions(perbar[i], interp, id2pos, pos, why)) return Finding::make("cycle.malformed", bar_sig(sig0, ns, bars[i]) + ",per_bar", why + " in " + vh::vstr(perbar[i]));
+      if (pos == le.pos[i]) { c.count("cmp.per_bar_equals_list"); continue; }
+      any_diff = true; c.count("info.per_bar_differs_from_list");
+      bool hv = false;
+      Finding f = check_one(sem, bars[i], pos, bar_sig(sig0, ns, bars[i]) + ",per_bar", reps[i], hv);
+      if (f.bad) return f;
+      have[i] = hv;
+    }
+    if (any_diff) {
+      std::string detail; uint64_t ck = 0, sk = 0;
+      std::string id = sem.check_basis(bars, reps, have, detail, ck, sk);
+      c.count("cmp.basis.index_checked", ck);
+      if (!id.empty()) return Finding::make(id, sig0 + ",per_bar", detail);
+    }
+    return Finding::ok();
+  }
+
+  template <class BK>
+  bool observe_with(const std::string& sig0, const std::vector<oracle::Bar>& bars, const NestStat& ns, const std::map<int, GBar>& gbar) {
+    Sem<BK> sem(F.cells, p);
+    std::vector<std::vector<ID>> all;
+    c.log("get_representative_cycles");
+    {
+      const auto& got = m->get_representative_cycles();
+      for (const auto& cy : got) all.emplace_back(cy.begin(), cy.end());
+    }
+    c.count("obs.get_representative_cycles");
+    for (auto& cy : all) normalise_repeats(cy, sig0, "list");
+
+    // interpretation of the entries: the documentation says "row indices" (ids); RU matrices return positions.  With
+    // ids == positions both agree.  With gapped ids either reading is accepted as long as it makes every statement true
+    // for the whole observation.
+    int interp = kRU ? 1 : 0;
+    ListEval<BK> le;
+    Finding f = evaluate_list(sem, interp, all, bars, ns, sig0, le);
+    if (f.bad && idmode == 2) {
+      ListEval<BK> le2;
+      Finding g = evaluate_list(sem, 1 - interp, all, bars, ns, sig0, le2);
+      if (!g.bad) { f = g; le = le2; interp = 1 - interp; c.count("info.gapped_ids.other_index_reading_accepted"); }
+    }
+    if (f.bad) { c.violation(f.check, f.sig, f.detail); return false; }
+    if (idmode == 2) c.count(interp ? "info.gapped_ids.cycle_entries_read_as_positions" : "info.gapped_ids.cycle_entries_read_as_ids");
+
+    std::vector<std::vector<ID>> perbar;
+    for (const auto& b : bars) {
+      GBar gb((typename M::Pos_index)b.birth, b.death < 0 ? GBar::inf : (typename M::Pos_index)b.death, b.dim);
+      if constexpr (kBarcode) gb = gbar.at(b.birth);
+      c.log("get_representative_cycle (" + vh::str(b.dim) + ";" + vh::str(b.birth) + "," + vh::str(b.death) + ")");
+      const auto& cy = m->get_representative_cycle(gb);
+      perbar.emplace_back(cy.begin(), cy.end());
+      c.count("obs.get_representative_cycle");
+    }
+    for (auto& cy : perbar) normalise_repeats(cy, sig0, "per_bar");
+    f = evaluate_per_bar(sem, interp, perbar, bars, ns, sig0, le);
+    if (f.bad) { c.violation(f.check, f.sig, f.detail); return false; }
+    return true;
   }
 
   // returns false after reporting a violation
@@ -453,42 +515,7 @@ struct Driver {
     }
     if (call_update) { c.log("update_representative_cycles"); m->update_representative_cycles(); c.count("op.update_representative_cycles"); }
     else c.count("op.lazy_first_get");
-    Observed ob;
-    c.log("get_representative_cycles");
-    {
-      const auto& all = m->get_representative_cycles();
-      for (const auto& cy : all) ob.all.emplace_back(cy.begin(), cy.end());
-    }
-    c.count("obs.get_representative_cycles");
-    // the per-bar query needs at least one stored cycle index per birth; it is only defined for bars of the barcode
-    if (ob.all.size() < bars.size()) {
-      c.violation("cycles.count", sig0 + ",fewer_cycles_than_bars",
-                  "get_representative_cycles() has " + vh::str(ob.all.size()) + " cycles, the barcode has " + vh::str(bars.size()) + " bars");
-      return false;
-    }
-    for (const auto& b : bars) {
-      GBar gb((typename M::Pos_index)b.birth, b.death < 0 ? GBar::inf : (typename M::Pos_index)b.death, b.dim);
-      if constexpr (kBarcode) gb = gbar.at(b.birth);
-      c.log("get_representative_cycle (" + vh::str(b.dim) + ";" + vh::str(b.birth) + "," + vh::str(b.death) + ")");
-      const auto& cy = m->get_representative_cycle(gb);
-      ob.perbar.emplace_back(cy.begin(), cy.end());
-      c.count("obs.get_representative_cycle");
-    }
-
-    for (auto& cy : ob.all) normalise_repeats(cy, sig0, "list");
-    for (auto& cy : ob.perbar) normalise_repeats(cy, sig0, "per_bar");
-
-    // interpretation of the entries: the documentation says "row indices" (ids); RU matrices return positions.  With
-    // ids == positions both agree.  With gapped ids either reading is accepted as long as one of them makes every
-    // statement true for the whole observation.
-    int natural = kRU ? 1 : 0;
-    Finding f = (p == 2) ? evaluate<Z2Backend>(natural, ob, bars, ns, sig0) : evaluate<ZpBackend>(natural, ob, bars, ns, sig0);
-    if (f.bad && idmode == 2) {
-      Finding g = (p == 2) ? evaluate<Z2Backend>(1 - natural, ob, bars, ns, sig0) : evaluate<ZpBackend>(1 - natural, ob, bars, ns, sig0);
-      if (!g.bad) { f = g; c.count("info.gapped_ids.other_index_reading_accepted"); }
-    }
-    if (f.bad) { c.violation(f.check, f.sig, f.detail); return false; }
-    if (idmode == 2) c.count(natural ? "info.gapped_ids.cycle_entries_read_as_positions" : "info.gapped_ids.cycle_entries_read_as_ids");
+    if (!((p == 2) ? observe_with<Z2Backend>(sig0, bars, ns, gbar) : observe_with<ZpBackend>(sig0, bars, ns, gbar))) return false;
 
     // statistics
     ++obs_done; c.count("obs.complete");
